@@ -1153,7 +1153,8 @@ func (app *App) ErrorHandler(ctx Ctx, err error) error {
 			// a parameterised mount prefix contains the paths that its pattern, continued by "/*", matches
 			var params [maxParams]string
 			parser := parseRoute(getGroupPath(prefix, "/*"))
-			if !parser.getMatch(path, path, &params, false) {
+			// the matcher stores at most maxParams values
+			if len(parser.params) > maxParams || !parser.getMatch(path, path, &params, false) {
 				continue
 			}
 		} else {
